@@ -38,6 +38,7 @@ type lbLeaf struct {
 	usesS2  bool
 	accVar  string
 	raw     string
+	inexact bool // uses a float operation whose Lean stand-in is not bit-exact, or a field the case line does not carry
 }
 
 type lbTree struct {
@@ -57,18 +58,20 @@ type lbResult struct {
 	sink             string
 	ok               string
 	raw              string
+	inexact          bool
 }
 
 type lbArch struct {
-	name      string
-	path      string
-	info      *types.Info
-	fset      *token.FileSet
-	funcs     map[string]*ast.FuncDecl // methods and package-level functions by name
-	fnFile    map[string]string
-	pure      map[string]string // translated pure helpers: lean name -> definition text
-	pureOrder []string
-	emu       *lbArch // the arch whose package is amd/emu (helpers called as emu.F from cdna3)
+	name        string
+	path        string
+	info        *types.Info
+	fset        *token.FileSet
+	funcs       map[string]*ast.FuncDecl // methods and package-level functions by name
+	fnFile      map[string]string
+	pure        map[string]string // translated pure helpers: lean name -> definition text
+	pureOrder   []string
+	emu         *lbArch // the arch whose package is amd/emu (helpers called as emu.F from cdna3)
+	pureInexact map[string]bool
 }
 
 var lbInstFields = map[string][2]string{ // Go field -> (Lean field, Lean type)
@@ -80,6 +83,10 @@ var lbInstFields = map[string][2]string{ // Go field -> (Lean field, Lean type)
 	"Src0Neg": {"u.src0Neg", "Bool"}, "Src1Neg": {"u.src1Neg", "Bool"}, "Src2Neg": {"u.src2Neg", "Bool"},
 	"Src0Abs": {"u.src0Abs", "Bool"}, "Src1Abs": {"u.src1Abs", "Bool"}, "Src2Abs": {"u.src2Abs", "Bool"},
 }
+
+// instruction fields the `c06 body` case line carries
+var lbCaseLineFields = map[string]bool{"IsSdwa": true, "Clamp": true, "Abs": true, "Neg": true, "Omod": true, "Src0Sel": true,
+	"Src1Sel": true, "DstSel": true, "DstUnused": true}
 
 var lbOperandField = map[string]string{"inst.Src0": "r.src0", "inst.Src1": "r.src1", "inst.Src2": "r.src2", "inst.Dst": "r.dstOld"}
 
@@ -213,6 +220,9 @@ func (c *lbCtx) hooks() {
 	c.t.selHook = func(e *ast.SelectorExpr, env map[string]string) (string, bool) {
 		if id, ok := e.X.(*ast.Ident); ok && id.Name == "inst" {
 			if f, ok := lbInstFields[e.Sel.Name]; ok {
+				if !lbCaseLineFields[e.Sel.Name] {
+					c.leaf.inexact = true
+				}
 				return f[0], true
 			}
 			return c.fail(e, "instruction field inst.%s is not in the uniform record", e.Sel.Name), true
@@ -227,6 +237,7 @@ func (c *lbCtx) hooks() {
 		switch {
 		case name == "state.ReadOperand":
 			if c.mode == "uniform" && types.ExprString(e.Args[0]) == "inst.Src2" && types.ExprString(e.Args[1]) == "0" {
+				c.leaf.inexact = true
 				return "u.k2", true // the literal K of v_madak_f32 / v_fmamk_f32 / v_fmaak_f32 (a LiteralConstant operand)
 			}
 			if c.mode != "lane" {
@@ -279,6 +290,9 @@ func (c *lbCtx) hooks() {
 			if err != nil {
 				return c.fail(e, "helper %s: %v", fname, err), true
 			}
+			if owner.pureInexact[lean] {
+				c.leaf.inexact = true
+			}
 			args := []string{}
 			k := 0
 			for _, p := range fd.Type.Params.List {
@@ -286,7 +300,12 @@ func (c *lbCtx) hooks() {
 					if types.ExprString(p.Type) == "*insts.Inst" {
 						args = append(args, "u")
 					} else {
-						args = append(args, c.t.expr(e.Args[k], env))
+						arg := c.t.expr(e.Args[k], env)
+						if strings.Contains(arg, ".toBits") {
+							// the bits of a float go on into integer code: Lean's `toBits` canonicalises NaNs, Go keeps them
+							c.leaf.inexact = true
+						}
+						args = append(args, arg)
 					}
 					k++
 				}
@@ -385,6 +404,10 @@ func (a *lbArch) pureFunc(fd *ast.FuncDecl) (string, error) {
 		return "", c.t.err
 	}
 	a.pure[lean] = fmt.Sprintf("/-- %s -/\ndef %s %s : %s :=\n%s\n\n", a.relPos(fd), lean, strings.Join(params, " "), rty, body)
+	if a.pureInexact == nil {
+		a.pureInexact = map[string]bool{}
+	}
+	a.pureInexact[lean] = c.leaf.inexact
 	a.pureOrder = append(a.pureOrder, lean)
 	return lean, nil
 }
@@ -719,6 +742,7 @@ type lbFn struct {
 	zeroVar map[string]bool
 	uniEnv  map[string]string // uniform locals defined before the loop: Go name -> Lean name
 	uniLets []string          // their `let` lines
+	inexact *bool
 }
 
 type lbRefusal struct{ msg string }
@@ -770,6 +794,9 @@ func (f *lbFn) uniformCond(e ast.Expr) string {
 	s := c.t.expr(e, env)
 	if c.t.err != nil {
 		f.refuse(e, "condition outside the lane loop is not a function of the instruction fields: %v", c.t.err)
+	}
+	if c.leaf.inexact && f.inexact != nil {
+		*f.inexact = true
 	}
 	return s
 }
@@ -836,6 +863,9 @@ func (f *lbFn) level(list []ast.Stmt) *lbTree {
 					val := c.t.expr(s.Rhs[0], env)
 					ty, okT := lbLeanType(f.a.info.TypeOf(s.Lhs[0]))
 					if c.t.err == nil && okT {
+						if c.leaf.inexact && f.inexact != nil {
+							*f.inexact = true
+						}
 						if _, dup := f.uniEnv[id.Name]; dup {
 							f.refuse(s, "uniform local %s defined twice", id.Name)
 						}
@@ -1096,7 +1126,7 @@ func (a *lbArch) tryFloat(h *lfHandler, fd *ast.FuncDecl) (res *lbResult) {
 }
 
 func (a *lbArch) core(h *lfHandler, fd *ast.FuncDecl, res *lbResult) {
-	f := &lbFn{a: a, h: h, fd: fd, sunk: map[string]bool{}, vccVars: map[string]bool{}, zeroVar: map[string]bool{}}
+	f := &lbFn{a: a, h: h, fd: fd, sunk: map[string]bool{}, vccVars: map[string]bool{}, zeroVar: map[string]bool{}, inexact: &res.inexact}
 	ast.Inspect(fd.Body, func(n ast.Node) bool {
 		if ce, ok := n.(*ast.CallExpr); ok {
 			switch name := types.ExprString(ce.Fun); {
@@ -1121,6 +1151,9 @@ func (a *lbArch) core(h *lfHandler, fd *ast.FuncDecl, res *lbResult) {
 	res.guard, res.accInit, res.sink = loops[0].guard, loops[0].accInit, loops[0].sink
 	res.msrc = "none"
 	for _, l := range loops {
+		if l.inexact {
+			res.inexact = true
+		}
 		if l.guard != res.guard || l.accInit != res.accInit || l.sink != res.sink {
 			f.refuse(fd, "the lane loops on different instruction-field paths disagree on guard / accumulator / write-back")
 		}
@@ -1268,6 +1301,17 @@ func genLaneBodies(handlers []*lfHandler) {
 			cov = ".wrapper " + leanStrList(cs)
 		}
 		fmt.Fprintf(&b, "  ⟨%s, %s, %s⟩%s\n", leanStr(r.arch), leanStr(r.name), cov, sep)
+	}
+	b.WriteString("]\n\n/-- float handlers whose body uses only operations that are bit-exact in Lean's Float32/Float (IEEE +,-,*,/,\n    comparisons, conversions, abs, sqrt) and only the instruction fields a case line carries: tied by `c06 body` too -/\ndef exactFloat : List (String × String) := [")
+	nx := 0
+	for _, r := range results {
+		if r.cov == "translatedF" && !r.inexact {
+			if nx > 0 {
+				b.WriteString(",")
+			}
+			nx++
+			fmt.Fprintf(&b, "\n  (%s, %s)", leanStr(r.arch), leanStr(r.name))
+		}
 	}
 	b.WriteString("]\n\n")
 	lbWriteMemFacts(&b, memFacts)
@@ -1614,6 +1658,7 @@ func (c *lbCtx) floatHook(e ast.Expr, env map[string]string) (string, bool) {
 				if sk == 32 {
 					arg = "(Float32.toFloat " + arg + ")"
 				}
+				c.leaf.inexact = true
 				return fmt.Sprintf("(C06.GoF.toInt %d %s %s)", w, leanBool(sg), arg), true
 			}
 		}
@@ -1625,21 +1670,29 @@ func (c *lbCtx) floatHook(e ast.Expr, env map[string]string) (string, bool) {
 			return fmt.Sprintf("(%s.toBits %s).toBitVec", lbFloatTy(k), t.expr(x.Args[0], env)), true
 		}
 		if f, ok := lbMath1[name]; ok && len(x.Args) == 1 {
+			if name != "math.Abs" && name != "math.Sqrt" {
+				c.leaf.inexact = true
+			}
 			return fmt.Sprintf("(%s %s)", f, t.expr(x.Args[0], env)), true
 		}
 		if f, ok := lbMath2[name]; ok && len(x.Args) == 2 {
+			c.leaf.inexact = true
 			return fmt.Sprintf("(%s %s %s)", f, t.expr(x.Args[0], env), t.expr(x.Args[1], env)), true
 		}
 		switch name {
 		case "math.IsNaN":
 			return "(Float.isNaN " + t.expr(x.Args[0], env) + ")", true
 		case "math.IsInf":
+			c.leaf.inexact = true
 			return fmt.Sprintf("(C06.GoF.isInf %s %s)", t.expr(x.Args[0], env), t.expr(x.Args[1], env)), true
 		case "math.Signbit":
+			c.leaf.inexact = true
 			return "(C06.GoF.signbit " + t.expr(x.Args[0], env) + ")", true
 		case "math.Inf":
+			c.leaf.inexact = true
 			return "(C06.GoF.inf " + t.expr(x.Args[0], env) + ")", true
 		case "math.NaN":
+			c.leaf.inexact = true
 			return "C06.GoF.nan", true
 		}
 		if strings.HasPrefix(name, "math.") {
